@@ -1,3 +1,4 @@
+#[cfg(all(feature = "public_tests", not(kani)))]
 #[doc(hidden)]
 #[allow(missing_docs, dead_code, clippy::all)]
 pub mod vx_export {
@@ -63,14 +64,13 @@ pub mod vx_export {
         ];
         let x = el(0x10, 9);
         let proof = SingleAppendOnlyProof { inserted: vec![x], unchanged_nodes: unchanged.clone() };
-        // end hash chosen by the server: the tree in which the subtree under "00" is replaced by the single leaf x
+        // end hash chosen by the server: what remains when the subtree under "00" is shadowed by the new leaf x
+        // (computed here with the library's own insertion, which silently drops the shadowed element)
         let m2 = StorageManager::new_no_cache(AsyncInMemoryDatabase::new());
         let mut a2 = Azks::new::<TC, _>(&m2).await?;
         a2.latest_epoch = 1;
-        let set = vec![
-            unchanged[1],
-            AzksElement { label: x.label, value: AzksValue(TC::hash_leaf_with_commitment(x.value, 2).0) },
-        ];
+        let mut set = unchanged.clone();
+        set.push(AzksElement { label: x.label, value: AzksValue(TC::hash_leaf_with_commitment(x.value, 2).0) });
         a2.batch_insert_nodes::<TC, _>(&m2, set, InsertMode::Auditor, AzksParallelismConfig::disabled()).await?;
         let end_hash = a2.get_root_hash::<TC, _>(&m2).await?;
         if end_hash == start_hash {
